@@ -40,7 +40,7 @@ def run(rep, tier, seed, proof_ok):
     rng = random.Random(seed)
     rep.rule = ("overlap: every ordered selection of 1..4 distinct paths over segments {f,g,h} with 1..3 segments (39 paths; "
                 "quick: all 1-2-path lists, sampled 3-4-path lists; thorough: all ordered 3-lists, sampled 4-lists) plus '/' and "
-                "odd spellings, given to the real non_terminal_leaves and to the Coq model, and compared with the prefix "
+                "odd spellings, plus lists over segment names containing characters that sort before '/' (. - space +), given to the real non_terminal_leaves and to the Coq model, and compared with the prefix "
                 "specification; non-trivial = at least two paths sharing a first segment")
     P = all_paths(3)
     cases = [[p] for p in P] + [list(t) for t in itertools.permutations(P, 2)]
@@ -55,6 +55,15 @@ def run(rep, tier, seed, proof_ok):
         k = rng.randint(1, 3)
         cases.append(rng.sample(P, k) + rng.sample(odd, rng.randint(1, 2)))
         rng.shuffle(cases[-1])
+    # segment names with characters that sort before '/' (space ! + , - .) or after it, sharing prefixes as strings
+    segs2 = ["model", "model.v2", "model-old", "model v", "model+", "model0", "modelA", "mode", "m", "~"]
+    p2 = ["/" + "/".join(t) for n in (1, 2, 3) for t in itertools.product(segs2, repeat=n) if n < 3 or rng.random() < 0.05]
+    for _ in range(2500 if tier == "quick" and proof_ok else 25000):
+        k = rng.randint(2, 5)
+        base = rng.choice(p2)
+        c = [base] + [rng.choice([base + "/" + rng.choice(segs2), base + rng.choice([".x", "-x", " x", "0", "+"]), rng.choice(p2)]) for _ in range(k - 1)]
+        rng.shuffle(c)
+        cases.append(list(dict.fromkeys(c)))
     impl = C.run_driver("drive_small.py", {"kind": "overlap", "cases": cases})
     model = C.coq_eval_strings(PRELUDE, ["run_overlap [" + "; ".join(spath_coq(p) for p in c) + "]" for c in cases], label="c11")
     n_odd = 0
